@@ -32,10 +32,11 @@ from sim.core import runner
 
 WATCH = (os.path.join(runner.REPO, 'clastic') + os.sep, '<sinter')
 
-ROUTES = ['ok', 'stream', 'ctx', 'static-small', 'static-big', 'static-missing', 'static-oddtime', 'static-oddtime', 'branch', 'missing', 'm405', 'boom',
+ROUTES = ['ok', 'stream', 'ctx', 'static-small', 'static-big', 'static-missing', 'static-oddtime', 'static-oddtime', 'reroute-branch', 'reroute-branch-noslash', 'reroute-branch-dslash', 'branch', 'missing', 'm405', 'boom',
           'http403', 'meta', 'meta-json', 'gz', 'cache', 'reroute-raise', 'reroute-ep', 'sub-ok', 'empty', 'bytes-big']
 PATH = {'ok': '/ok', 'stream': '/stream', 'ctx': '/ctx', 'static-small': '/s/a.txt', 'static-big': '/s/big.bin',
-        'static-missing': '/s/nope', 'static-oddtime': '/s/odd.txt', 'branch': '/b', 'missing': '/missing', 'm405': '/g', 'boom': '/boom',
+        'static-missing': '/s/nope', 'static-oddtime': '/s/odd.txt', 'reroute-branch': '/rb/', 'reroute-branch-noslash': '/rb',
+        'reroute-branch-dslash': '/rb//', 'branch': '/b', 'missing': '/missing', 'm405': '/g', 'boom': '/boom',
         'http403': '/forbidden', 'meta': '/meta/', 'meta-json': '/meta/json/', 'gz': '/gz', 'cache': '/cache',
         'reroute-raise': '/rr', 'reroute-ep': '/r2', 'sub-ok': '/in/x', 'empty': '/empty', 'bytes-big': '/big'}
 METHODS = ['GET', 'GET', 'HEAD', 'POST', 'OPTIONS']
@@ -65,14 +66,14 @@ class SimFileWrapper(object):
             self.filelike.close()
 
 
-def wrapper_type(name, unique):
+def wrapper_type(name, unique, base=None):
     def wsgi_wrapper(self, inner):
         def wrapped(environ, start_response):
             environ.setdefault('sim.wrappers', []).append(self.tag)
             return inner(environ, start_response)
         return wrapped
-    return type(str('W' + name), (Middleware,), {'unique': unique, 'wsgi_wrapper': wsgi_wrapper,
-                                                 '__init__': lambda self, tag: setattr(self, 'tag', tag)})
+    return type(str('W' + name), (base or Middleware,), {'unique': unique, 'wsgi_wrapper': wsgi_wrapper,
+                                                         '__init__': lambda self, tag: setattr(self, 'tag', tag)})
 
 
 # deliberately the kind of headers a re-wrapping response object would "correct"
@@ -121,7 +122,7 @@ class C13(Check):
     level_text = ('Seeded search over server behaviours x response kinds x wrapper stacks with a protocol monitor; the '
                   'route-kind x method x consumption x file-wrapper grid is swept once per run for a sampled wrapper stack.')
     level_note = 'Trusted: wsgiref.validate as the reading of PEP 3333; the monitor in sim/core/gateway.py.'
-    required_probes = ('first-requests-concurrent', 'file-released-after-abort', 'file-released-without-iteration', 'head-no-body', 'reroute-same-environ',
+    required_probes = ('reroute-through-rewritten-path', 'first-requests-concurrent', 'file-released-after-abort', 'file-released-without-iteration', 'head-no-body', 'reroute-same-environ',
                        'custom-file-wrapper-used', 'debug-500', 'gzip-applied')
 
     def generate(self, seed, tier):
@@ -129,6 +130,9 @@ class C13(Check):
         c, rng = S['config'], S['ops']
         names = ['A', 'B', 'C', 'D', 'E']
         types = dict((n, {'unique': c.random() < 0.75}) for n in names)
+        for i, n in enumerate(names[1:], 1):
+            if c.random() < 0.3:
+                types[n]['base'] = names[c.randrange(i)]
 
         def pick(k, banned=()):
             out = []
@@ -144,7 +148,7 @@ class C13(Check):
         route = pick(2, banned=nonuniq_used)
         nonuniq_used |= set(n for n in route if not types[n]['unique'])
         sib = pick(2, banned=nonuniq_used)       # a sibling embedded application with its own instances
-        cfg = {'debug': c.random() < 0.4, 'types': types, 'outer_wrappers': outer, 'sub_wrappers': sub, 'route_wrappers': route,
+        cfg = {'debug': c.random() < 0.4, 'slash': c.choice(['redirect', 'redirect', 'rewrite', 'strict']), 'types': types, 'outer_wrappers': outer, 'sub_wrappers': sub, 'route_wrappers': route,
                'sib_wrappers': sib}
         if c.random() < 0.5:
             # the application's very first requests arrive at the same time
@@ -176,7 +180,10 @@ class C13(Check):
 
     # ------------------------------------------------------------------
     def build(self, cfg, root, target):
-        classes = dict((n, wrapper_type(n, t['unique'])) for n, t in cfg['types'].items())
+        classes = {}
+        for n, t in sorted(cfg['types'].items()):
+            # a subclass of another wrapper type is a different type: both wrap
+            classes[n] = wrapper_type(n, t['unique'], classes.get(t.get('base')))
 
         def objs(level, lst):
             return [classes[n]('%s:%s' % (level, n)) for n in lst]
@@ -218,9 +225,10 @@ class C13(Check):
                   ('/b/', ok), GET('/g', ok), ('/boom', boom), ('/forbidden', forbidden), ('/meta/', MetaApplication()),
                   Route('/gz', compressible, middlewares=[GzipMiddleware()]),
                   Route('/cache', ok, middlewares=[HTTPCacheMiddleware()]),
-                  ('/rr', rr), ('/r2', RerouteWSGI(target)), ('/in', inner), ('/empty', empty), ('/big', big),
+                  ('/rr', rr), ('/r2', RerouteWSGI(target)), ('/rb/', RerouteWSGI(target)), ('/in', inner), ('/empty', empty), ('/big', big),
                   ('/in2', Application([('/y', ok)], middlewares=objs('t', cfg.get('sib_wrappers', []))))]
-        return Application(routes, middlewares=objs('o', cfg['outer_wrappers']), debug=cfg['debug'])
+        return Application(routes, middlewares=objs('o', cfg['outer_wrappers']), debug=cfg['debug'],
+                           slash_mode=cfg.get('slash', 'redirect'))
 
     def execute(self, plan):
         res = RunResult()
@@ -359,7 +367,16 @@ class C13(Check):
             res.violate(K + 'wrapper-order:' + bad[0], ctx + ' -> wrappers entered %r: %s' % (order, bad[1]), step)
             return
         # --- reroute ----------------------------------------------------------
+        mode = cfg.get('slash', 'redirect')
+        if route in ('reroute-branch-noslash', 'reroute-branch-dslash') and mode != 'rewrite':
+            # not a reroute in these modes: slash redirect / strict 404 (the inner mounts keep the statuses below)
+            want = 302 if mode == 'redirect' else 404
+            if ex.code != want:
+                res.violate(K + 'status-%s-not-%s@%s' % (ex.code, want, route), ctx + ' -> %s (slash mode %s)' % (ex.status, mode), step)
+            return
         if route.startswith('reroute'):
+            if mode == 'rewrite' and route != 'reroute-branch':
+                res.probe('reroute-through-rewritten-path')
             if len(target.seen) != n_seen + 1:
                 res.violate(K + 'reroute-target-not-called', ctx, step)
                 return
@@ -384,11 +401,16 @@ class C13(Check):
                   'branch': 302, 'missing': 404, 'boom': 500, 'http403': 403, 'meta': 200, 'meta-json': 200, 'gz': 200,
                   'cache': 200, 'sub-ok': 200, 'empty': 200, 'bytes-big': 200}
         want = expect.get(route)
+        if route == 'branch':
+            want = {'redirect': 302, 'rewrite': 200, 'strict': 404}[mode]
+        if route in ('meta', 'meta-json', 'static-small', 'static-big', 'static-missing', 'static-oddtime', 'sub-ok') and mode == 'strict':
+            want = None      # embedded applications under a strict host: slash handling of their mounts is C07 territory
         if route == 'static-oddtime':
             res.probe('static-file-with-unrepresentable-mtime')
             if ex.code not in (200, 403, 404):
                 res.violate(K + 'status-%s@static-oddtime' % ex.code, ctx + ' -> %s' % ex.status, step)
                 return
+            want = None
         if route == 'm405':
             want = 200 if method in ('GET', 'HEAD') else 405
         if route in ('cache',) and 'If-None-Match' in op['headers']:
